@@ -1,19 +1,19 @@
 package main
 
 import (
-	"encoding/hex"
-	"time"
-	"syscall"
-	"net"
-	"sync"
 	"bytes"
 	"context"
+	"encoding/hex"
 	"fmt"
+	"net"
 	"os"
 	"os/exec"
 	"path/filepath"
 	"sort"
 	"strings"
+	"sync"
+	"syscall"
+	"time"
 
 	api "github.com/polydawn/go-timeless-api"
 	"github.com/polydawn/go-timeless-api/rio"
@@ -883,7 +883,7 @@ func gitHostile(c *Ctx, op string) {
 			c.EmitR(sop, "skip", "skip")
 			continue
 		}
-		c.H("git-hostile:" + hc.name + ":" + strings.Fields(res+" x")[0][:min(len(strings.Fields(res+" x")[0]), 5)])
+		c.H("git-hostile:" + hc.name + ":" + strings.Fields(res + " x")[0][:min(len(strings.Fields(res + " x")[0]), 5)])
 		c.EmitR(sop, modelOp, res)
 	}
 	// a commit object naming a tree that is not in the repository
